@@ -58,6 +58,7 @@ func gen(t *rapid.T) Script {
 	s := Script{UploadConn: rapid.SampledFrom([]int32{65535, 65535, 100000, 1 << 20}).Draw(t, "upconn"), UploadStream: rapid.SampledFrom([]int32{4096, 20000, 65535, 1 << 20}).Draw(t, "upstream")}
 	nDown, nUp := 0, 0
 	paused, stalledOnce := false, false
+	goneAway := false
 	upOpen := map[int]bool{}
 	upHeld := map[int]bool{}
 	live := map[int]bool{} // downloads not reset
@@ -77,16 +78,19 @@ func gen(t *rapid.T) Script {
 			kinds = append(kinds, "resume")
 		} else {
 			kinds = append(kinds, "pause")
-			if !stalledOnce && nDown < 8 && nUp < 6 {
+			if !stalledOnce && nDown < 8 && nUp < 6 && !goneAway {
 				kinds = append(kinds, "stalled_writer", "stalled_writer")
 			}
 		}
 		if len(upOpen) > 0 {
 			kinds = append(kinds, "upload_violate")
 		}
+		if !goneAway && nDown > 0 {
+			kinds = append(kinds, "client_goaway")
+		}
 		switch k := rapid.SampledFrom(kinds).Draw(t, "kind"); k {
 		case "download":
-			if nDown >= 8 {
+			if nDown >= 8 || goneAway {
 				continue
 			}
 			s.Ops = append(s.Ops, Op{Kind: "download", Idx: nDown, N: rapid.SampledFrom([]int{0, 1, 1000, 16383, 16384, 16385, 65535, 65536, 70000, 200000, 1 << 20}).Draw(t, "size"), Chunk: rapid.SampledFrom([]int{1 << 20, 4096, 100, 16384, 33333}).Draw(t, "chunk")})
@@ -107,7 +111,7 @@ func gen(t *rapid.T) Script {
 		case "wait":
 			s.Ops = append(s.Ops, Op{Kind: "wait"})
 		case "upload_open":
-			if nUp >= 6 {
+			if nUp >= 6 || goneAway {
 				continue
 			}
 			mode := rapid.SampledFrom([]string{"read-all", "read-all", "read-some", "read-none", "close-early", "close-then-hold", "close-then-hold", "hold-then-read-all", "hold-then-read-all"}).Draw(t, "mode")
@@ -128,6 +132,11 @@ func gen(t *rapid.T) Script {
 			u := pick(t, upHeld, "rel")
 			s.Ops = append(s.Ops, Op{Kind: "release", Idx: u})
 			delete(upHeld, u)
+		case "client_goaway":
+			// GOAWAY(NO_ERROR) from the client: no new streams, but everything in flight is to be finished,
+			// flow control included
+			s.Ops = append(s.Ops, Op{Kind: "client_goaway"})
+			goneAway = true
 		case "pause":
 			s.Ops = append(s.Ops, Op{Kind: "pause"})
 			paused = true
@@ -302,6 +311,7 @@ func exec(t *testing.T, s Script) (viol *vstat.Violation, classes map[string]boo
 		gaCode := xhttp2.ErrCode(0)
 		expectStreamErr := map[uint32]bool{}
 		paused := false // the client is not reading
+		clientGoAway := false
 
 		process := func(step string) *vstat.Violation {
 			frames := peer.Frames()
@@ -379,6 +389,11 @@ func exec(t *testing.T, s Script) (viol *vstat.Violation, classes map[string]boo
 						}
 					}
 				case xhttp2.FrameGoAway:
+					if f.ErrCode == xhttp2.ErrCodeNo && clientGoAway {
+						// the server's answer to a graceful shutdown: streams in flight go on
+						classes["graceful-goaway-with-streams-in-flight"] = true
+						continue
+					}
 					gotGoAway, gaCode = true, f.ErrCode
 					dead = true
 				}
@@ -399,6 +414,9 @@ func exec(t *testing.T, s Script) (viol *vstat.Violation, classes map[string]boo
 			step := fmt.Sprintf("op %d %+v", i, op)
 			switch op.Kind {
 			case "download":
+				if clientGoAway {
+					continue
+				}
 				d := &download{sid: nextID, size: op.N, win: initWin}
 				nextID += 2
 				downloads = append(downloads, d)
@@ -409,8 +427,10 @@ func exec(t *testing.T, s Script) (viol *vstat.Violation, classes map[string]boo
 				for range pendingSettings {
 				}
 			case "wu_conn":
-				if paused && connWin+int64(op.N) > maxWin {
-					continue // DATA the client has not read yet lowers the server's view of the window: overflow cannot be predicted
+				if (paused || clientGoAway) && connWin+int64(op.N) > maxWin {
+					// DATA the client has not read yet lowers the server's view of the window: overflow cannot be predicted;
+					// and after a graceful GOAWAY the connection ends whenever its last stream does
+					continue
 				}
 				if connWin+int64(op.N) > maxWin {
 					expectConnErr = true
@@ -423,7 +443,7 @@ func exec(t *testing.T, s Script) (viol *vstat.Violation, classes map[string]boo
 				if d.reset {
 					continue
 				}
-				if paused && d.win+d.pend+int64(op.N) > maxWin {
+				if (paused || clientGoAway) && d.win+d.pend+int64(op.N) > maxWin {
 					continue
 				}
 				if d.win+d.pend+int64(op.N) > maxWin && !d.ended && !d.srvReset {
@@ -448,7 +468,7 @@ func exec(t *testing.T, s Script) (viol *vstat.Violation, classes map[string]boo
 						overflow = true
 					}
 				}
-				if overflow && paused {
+				if overflow && (paused || clientGoAway) {
 					continue
 				}
 				if overflow {
@@ -486,6 +506,9 @@ func exec(t *testing.T, s Script) (viol *vstat.Violation, classes map[string]boo
 					peer.Fr.WriteRSTStream(d.sid, xhttp2.ErrCodeCancel)
 				}
 			case "upload_open":
+				if clientGoAway {
+					continue
+				}
 				classes["upload-handler:"+op.Mode] = true
 				u := &upload{sid: nextID, mode: op.Mode, credit: srvInitWin, release: make(chan struct{})}
 				nextID += 2
@@ -557,6 +580,11 @@ func exec(t *testing.T, s Script) (viol *vstat.Violation, classes map[string]boo
 				if !u.released {
 					u.released = true
 					close(u.release)
+				}
+			case "client_goaway":
+				if !clientGoAway {
+					clientGoAway = true
+					peer.Fr.WriteGoAway(0, xhttp2.ErrCodeNo, nil)
 				}
 			case "pause":
 				if !paused {
@@ -719,7 +747,7 @@ func indexOf(ds []*download, d *download) int {
 
 func TestServer(t *testing.T) {
 	col.Mandatory("blocked-by-window", "reset-mid-body", "negative-stream-window", "overflow->GOAWAY(FLOW_CONTROL)", "over-window-upload->FLOW_CONTROL_ERROR", "padded-upload", "several-downloads-share-connection-window", "upload-handler:close-then-hold", "upload-handler:read-none", "upload-handler:hold-then-read-all",
-		"client-stops-reading", "stream-error-on-upload", "data-on-stream-whose-reset-is-still-queued")
+		"client-stops-reading", "stream-error-on-upload", "data-on-stream-whose-reset-is-still-queued", "graceful-goaway-with-streams-in-flight")
 	vstat.Run(t, vstat.Spec[Script]{Col: col, Quick: 1500, Thorough: 40000, Gen: gen,
 		Exec: func(s Script) *vstat.Violation {
 			v, cl := exec(t, s)
